@@ -2,7 +2,7 @@
    Only pinned statements, [exact], non-vacuity examples and Print Assumptions.
    Statements in model/IdsSpec.v.  The history-level reading ([C05_full]) is not proved: it is the
    subject of the history oracle of checks/C05.py; proved here is everything one call does. *)
-From Aqua Require Import Base Json Air Trace Handler Values Scalars Lens Exec RunExec CallSpec IdsSpec ExecInv IdsProofs.
+From Aqua Require Import Base Json Air Trace Handler Values Scalars Lens Exec RunExec ExecStreams CallSpec IdsSpec ExecInv IdsProofs.
 Open Scope N_scope.
 Open Scope list_scope.
 
